@@ -575,7 +575,11 @@ func (fx *FuncExec) applyContract(st *State, instr ssa.Instruction, fc *FuncCont
 	}
 	for _, e := range fc.Ensures {
 		// a postcondition that mentions the callee's locals says nothing a caller can use: not
-		// assuming it is sound
+		// assuming it is sound. The same holds for the callee's own call events (called, calledsince,
+		// ret): evaluated here they would speak about the CALLER's calls.
+		if strings.Contains(e.Text, "called(") || strings.Contains(e.Text, "calledsince(") || strings.Contains(e.Text, "ret(") {
+			continue
+		}
 		func() {
 			defer func() {
 				if r := recover(); r != nil {
